@@ -20,6 +20,8 @@ class SumLinearOperator(LinearOperator):
             linear_ops = tuple(to_linear_operator(lt) for lt in linear_ops)
         except TypeError:
             raise TypeError("All arguments of a SumLinearOperator should be LinearOperators or Tensors")
+        # summands whose shapes do not broadcast: raise here, rather than when the shape of the sum is first needed
+        torch.broadcast_shapes(*[lt.shape for lt in linear_ops])
         batch_shape = torch.broadcast_shapes(*[lt.batch_shape for lt in linear_ops])
         linear_ops = tuple(lt._expand_batch(batch_shape) if lt.batch_shape != batch_shape else lt for lt in linear_ops)
         super(SumLinearOperator, self).__init__(*linear_ops, **kwargs)
